@@ -181,6 +181,11 @@ def run_op(gem, root, op, ip=None, sub=''):
             if op == 'verify':
                 r = ld.assert_directory_verifies('')
                 return 'ok' if r else 'mismatch'
+            if op == 'verifyk':
+                # keep-going: the handler answers False to every report; an error must still end the run (or at
+                # least make the result False)
+                r = ld.assert_directory_verifies('', fail_handler=lambda e: False)
+                return 'ok' if r else 'mismatch'
             ld.update_entries_for_directory('')
             return 'ok'
         except E.ManifestMismatch:
@@ -229,7 +234,7 @@ def one_tree(args):
         errnos = ERRNOS if o.get('all_errnos') else rng.sample(ERRNOS, 3)
         subdirs = [d for d in L.dirs if d and os.path.isdir(os.path.join(root, d))]
         fsub = rng.choice(subdirs) if subdirs else ''
-        for op in ('verify', 'update', 'findtop'):
+        for op in ('verify', 'verifyk', 'update', 'findtop'):
             sub = fsub if op == 'findtop' else ''
             plain = run_op(gem, root, op, sub=sub)
             ip0 = Interposer(root)
